@@ -411,7 +411,11 @@ def nthroot_fixed(y, n, prec, exp1):
     extra = 10
     extra1 = n
     prevp = start
-    for p in giant_steps(start, prec+extra):
+    # The starting value comes from a 53-bit computation and is accurate to
+    # fewer than start bits (the error of 1.0/n alone costs log2(35*n) bits),
+    # and the deficit would double in every Newton step: begin the doubling
+    # schedule from a safe estimate of its accuracy.
+    for p in giant_steps(start-12, prec+extra):
         pm, pe = int_pow_fixed(r, n-1, prevp)
         r2 = rshift(pm, (n-1)*prevp - p - pe - extra1)
         B = lshift(y, 2*p-prec+extra1)//r2
